@@ -116,6 +116,9 @@ impl<'a> Parser<'a> {
             if let Some(block) = Some(self.parse_block()?).filter(|b| !b.is_empty()) {
                 blocks.push(block);
             }
+            if self.current_matches(TokenType::Else) {
+                return Err(self.new_parse_error(ParseErrorCode::UnexpectedToken));
+            }
         }
         Ok(Program { code: blocks })
     }
